@@ -197,7 +197,10 @@ def identity(interp, a, b):
         return z3.And(an, bn)
     same = None
     if isinstance(av, (VObj, VList, VDict, VByteArray, VSet, VFunc, VBuiltin)) or isinstance(bv, (VObj, VList, VDict, VByteArray, VSet, VFunc, VBuiltin)):
-        same = z3.BoolVal(av is bv)
+        # old(x) of an object is a snapshot carrying the object's identity (ops.snapshot keeps .id; objects, unlike
+        # lists / dicts / sets, are never copied that way)
+        same = z3.BoolVal(av is bv or (isinstance(av, VObj) and isinstance(bv, VObj) and getattr(av, "id", None) is not None
+                                       and getattr(av, "id", None) == getattr(bv, "id", None)))
     elif isinstance(av, VBool) and isinstance(bv, VBool):
         same = av.z == bv.z
     elif isinstance(av, VBool) != isinstance(bv, VBool):
@@ -1179,6 +1182,11 @@ def _dict_get(it, a, k, n):
         return default
     has = dict_has(it, d, key)
     if it.spec:
+        if not d.concrete and isinstance(default, VNone):
+            # specification text: d.get(k) of a symbolic map is the Optional "absent or the stored value" (no branching)
+            v = dict_get(it, d, key, n)
+            if isinstance(v, (VStr, VInt, VBool)):
+                return VOpt(z3.Not(has), v)
         raise Unsupported("dict.get in spec")
     if it.branch(has, "dict.get"):
         return dict_get(it, d, key, n)
@@ -1680,6 +1688,8 @@ def _iter(it, a, k, n):
     v = it.need(a[0])
     if isinstance(v, VObj) and "__view__" in v.fields and "__pos__" in v.fields:
         return v   # iter(iterator) is the iterator
+    if isinstance(v, VObj) and v.model is not None and f"model:{v.model.name}.__next__" in it.reg.contracts:
+        return v   # an environment model with __next__ is an iterator: iter() returns the object itself
     o = VObj("iterator", {"__pos__": VInt(0)})
     o.fields["__view__"] = iter_view(it, v, n)
     if isinstance(v, VList):
